@@ -541,6 +541,30 @@ func ruleErrStructure(r *Run) {
 				"ExtendErrorList no longer returns exactly the old list followed by all formatted errors (truncation/filtering): which errors survive then depends on the arrival order of concurrently failing steps (C13) and client-visible errors are lost (C10, C20)")
 		}
 	}
+	// FormatError answers the empty list for the nil error only: any other early `return nil`
+	// (a nil *Error inside a list, an error it does not like) makes an error vanish — and a
+	// failed step whose error list formats to nothing is taken for a success
+	if fe != nil && len(fe.Params) == 1 {
+		for _, ret := range returnsOf(fe) {
+			v := retVals(ret)[0]
+			if !isNilConst(unwrap(v)) {
+				continue
+			}
+			okNil := false
+			for _, ins := range allInstrs(fe) {
+				iff, isIf := ins.(*ssa.If)
+				if !isIf {
+					continue
+				}
+				if side := nilTestSideEq(iff, fe.Params[0]); side != nil && len(side.Preds) == 1 && (side == ret.Block() || side.Dominates(ret.Block())) {
+					okNil = true
+				}
+			}
+			r.Check(okNil, rule, fnName(fe), "empty answer only for the nil error", r.P.pos(retPos(ret)),
+				"the empty list is returned under `err == nil` on the parameter itself",
+				"FormatError returns the empty list for something that is not the nil error: that error disappears from the response, and a step that failed only with it is treated as a success with no data")
+		}
+	}
 	for _, fn := range []*ssa.Function{ext, fe} {
 		if fn == nil {
 			continue
@@ -835,7 +859,7 @@ func ruleDownstreamErrorPath(r *Run) {
 				yields := c.IsInvoke() && c.Value == v && c.Method.Name() == "Error"
 				if res := c.Signature().Results(); res != nil {
 					for i := 0; i < res.Len(); i++ {
-						if isErrorish(res.At(i).Type()) || strings.HasSuffix(namedOf(res.At(i).Type()), "gqlerrors.Error") {
+						if isErrorish(res.At(i).Type()) || strings.HasSuffix(namedOf(res.At(i).Type()), "gqlerrors.Error") || strings.HasSuffix(namedOf(res.At(i).Type()), "gqlerrors.ErrorList") || strings.HasSuffix(res.At(i).Type().String(), "gqlerrors.Error") {
 							yields = true
 						}
 					}
@@ -1005,4 +1029,19 @@ func ruleNodeFieldSignature(r *Run) {
 			"every way the predicate can answer true has passed this test",
 			"isNodeField can answer true without having checked that the "+w+": a service field that merely resembles `node(id: ID!): Node` is taken for the relay lookup field — it gets no route (and is skipped by the overlap check), so it stays in the gateway's schema but cannot be answered")
 	}
+}
+
+// nilTestSideEq: iff tests `v == nil` / `v != nil` on exactly v; returns the block entered when v is nil.
+func nilTestSideEq(iff *ssa.If, v ssa.Value) *ssa.BasicBlock {
+	bo, ok := iff.Cond.(*ssa.BinOp)
+	if !ok || (bo.Op != token.EQL && bo.Op != token.NEQ) {
+		return nil
+	}
+	if !((bo.X == v && isNilConst(bo.Y)) || (bo.Y == v && isNilConst(bo.X))) {
+		return nil
+	}
+	if bo.Op == token.EQL {
+		return iff.Block().Succs[0]
+	}
+	return iff.Block().Succs[1]
 }
